@@ -13,7 +13,7 @@ from mc import harness, engine, randsrc
 
 NO_CONFIRM_KINDS = ("fixed-program:",)      # process / repetition dependence is observed across interpreters, not per case
 LETTERS = ["rand", "randn", "normal", "randint", "uniform_", "normal_", "xavier_uniform_", "xavier_normal_", "kaiming_uniform_",
-           "kaiming_normal_", "Linear", "Conv1d", "Conv2d", "BatchNorm", "Dropout", "split", "train_step"]
+           "kaiming_normal_", "Linear", "Conv1d", "Conv2d", "BatchNorm", "Dropout", "split", "train_step", "apply_init", "params_init"]
 SEEDS = (0, 1, 12345)
 
 def _dig(arrs):
@@ -60,6 +60,27 @@ def run_letter(sg, letter):
             opt.zero_grad(); loss.backward(); opt.step()
             outs += [np.asarray(loss.data), m.l.weight.grad.data.copy()]
         return outs + [m.l.weight.data, m.l.bias.data]
+    if letter in ("apply_init", "params_init"):
+        # a container with several differently shaped layers re-initialised after seeding, through Module.apply / parameters():
+        # the order in which the layers consume the seeded stream is the registration order, not an address order
+        class Block(nn.Module):
+            def __init__(s, i, o):
+                super().__init__(); s.a = nn.Linear(i, o); s.act = nn.ReLU(); s.b = nn.Linear(o, i)
+        class Net(nn.Module):
+            def __init__(s):
+                super().__init__()
+                s.l1 = nn.Linear(3, 4); s.blk = Block(4, 2); s.l2 = nn.Linear(4, 5); s.blk2 = Block(5, 3); s.l3 = nn.Linear(5, 1)
+        keep = [bytearray(37 * (k + 1)) for k in range(40)]       # perturb allocation between the layers' constructions
+        m = Net()
+        if letter == "apply_init":
+            def init_fn(mod):
+                if isinstance(mod, nn.Linear):
+                    nn.init.xavier_uniform_(mod.weight); nn.init.uniform_(mod.bias, -0.5, 0.5)
+            m.apply(init_fn)
+        else:
+            for prm in m.parameters():
+                nn.init.normal_(prm, 0.0, 0.1)
+        return [prm.data for prm in m.parameters()]
     raise harness.HarnessError(letter)
 
 def run_program(sg, prog, seed):
